@@ -27,6 +27,10 @@ type PropFunc struct {
 	// Except: obligations whose name contains one of these substrings are NOT part of the check (they do not
 	// discharge within the budget); each is listed in the evidence as not verified
 	Except []string `json:"except,omitempty"`
+	// Auto: a function without a written contract is checked against the empty contract (no precondition, loops
+	// havoced): its zero-annotation safety obligations — every index, slice, nil dereference, division, type
+	// assertion and reachable panic — for all inputs
+	Auto bool `json:"auto,omitempty"`
 }
 
 type StaticCheck struct {
@@ -229,11 +233,18 @@ func (r *checkRun) genFunc(pf PropFunc, macro bool) *VC {
 	path := modPath + "/" + pf.Pkg
 	cf := r.prog.Contracts[path]
 	qn := r.prog.shortPkg(path) + "." + pf.Name
-	if cf == nil || cf.Funcs[pf.Name] == nil {
+	var fc *FuncContract
+	if cf != nil {
+		fc = cf.Funcs[pf.Name]
+	}
+	if fc == nil && pf.Auto {
+		fc = &FuncContract{Name: pf.Name, Pkg: path, Arith: "int", Options: map[string]string{}}
+		r.notes[qn+": no written contract — checked against the empty contract (zero-annotation safety sweep: no precondition, loops havoced)"] = true
+	}
+	if fc == nil {
 		r.bindErrs = append(r.bindErrs, fmt.Sprintf("%s: no contract found (contract file missing or function not listed)", qn))
 		return nil
 	}
-	fc := cf.Funcs[pf.Name]
 	fn := r.prog.FindFunc(path, pf.Name)
 	if fn == nil {
 		r.bindErrs = append(r.bindErrs, fmt.Sprintf("%s: contract binding stale: function not found in package", qn))
